@@ -84,7 +84,9 @@ func guarded(api string, in []byte, f func()) (ok bool) {
 			sum.Print()
 			os.Exit(0)
 		}
-		hx.Die("timing of %s not reproducible (%v once); not a verdict", api, el)
+		// slow once but not reproducibly: machine load, not a verdict and not a reason to stop
+		sum.Note("slow_once_not_reproduced", fmt.Sprintf("%s %v", api, el))
+		return true
 	}
 	if d := ms1.TotalAlloc - ms0.TotalAlloc; d > uint64(allocK*len(in)+allocC) {
 		sum.Mis("decode/alloc:"+api, fmt.Sprintf("%s allocated %d octets for a %d-octet input (bound %d*len+%d)", api, d, len(in), allocK, allocC), map[string]interface{}{"api": api, "bytes": hx.FromBytes(in)})
